@@ -11,10 +11,20 @@ MUTANTS = [
     ('c19-bpsize', ['C19'], 'src/registers/debug.rs', '8 => Some(Self::Length8B),\n            4 => Some(Self::Length4B),', '4 => Some(Self::Length8B),\n            8 => Some(Self::Length4B),'),
     ('c19-pat-default', ['C19'], 'src/registers/model_specific.rs', '        PatMemoryType::WriteBack,\n        PatMemoryType::WriteThrough,\n        PatMemoryType::Uncacheable,\n        PatMemoryType::StrongUncacheable,\n        PatMemoryType::WriteBack,', '        PatMemoryType::WriteBack,\n        PatMemoryType::WriteThrough,\n        PatMemoryType::Uncacheable,\n        PatMemoryType::StrongUncacheable,\n        PatMemoryType::WriteCombining,'),
     ('c19-size2m', ['C19'], 'src/structures/paging/page.rs', 'const SIZE: u64 = Size4KiB::SIZE * 512;', 'const SIZE: u64 = Size4KiB::SIZE * 256;'),
+    ('c15-tss-type', ['C15'], 'src/structures/gdt.rs', 'low.set_bits(40..44, 0b1001);', 'low.set_bits(40..44, 0b1011);'),
+    ('c15-tss-base-hi', ['C15'], 'src/structures/gdt.rs', 'high.set_bits(0..32, ptr.get_bits(32..64));', 'high.set_bits(0..32, ptr.get_bits(32..63));'),
+    ('c15-tss-base-mid', ['C15'], 'src/structures/gdt.rs', 'low.set_bits(56..64, ptr.get_bits(24..32));', 'low.set_bits(56..64, ptr.get_bits(23..31));'),
+    ('c15-tss-limit', ['C15'], 'src/structures/gdt.rs', '(size_of::<TaskStateSegment>() - 1) as u64', '(size_of::<TaskStateSegment>()) as u64'),
+    ('c15-dpl-shift', ['C15'], 'src/structures/gdt.rs', '>> 45;', '>> 44;'),
+    ('c15-iomap', ['C15'], 'src/structures/tss.rs', 'iomap_base: size_of::<TaskStateSegment>() as u16,', 'iomap_base: 0,'),
+    ('c15-user-code', ['C15'], 'src/structures/gdt.rs', 'Descriptor::UserSegment(DescriptorFlags::USER_CODE64.bits())', 'Descriptor::UserSegment(DescriptorFlags::USER_CODE32.bits())'),
+    ('c15-tss-present', ['C15'], 'src/structures/gdt.rs', 'let mut low = Flags::PRESENT.bits();', 'let mut low = Flags::USER_SEGMENT.bits();'),
 ]
 
 BENIGN = [
     ('b-c19-pl-reorder', ['C19'], 'src/lib.rs', '            0 => PrivilegeLevel::Ring0,\n            1 => PrivilegeLevel::Ring1,', '            1 => PrivilegeLevel::Ring1,\n            0 => PrivilegeLevel::Ring0,'),
     ('b-c19-pcid-lt', ['C19'], 'src/instructions/tlb.rs', 'if pcid >= 4096 {', 'if pcid > 4095 {'),
     ('b-c19-sel-mul', ['C19'], 'src/registers/segmentation.rs', 'SegmentSelector((index << 3) | (rpl as u16))', 'SegmentSelector(index.wrapping_mul(8) | (rpl as u16))'),
+    ('b-c15-dpl-mask', ['C15'], 'src/structures/gdt.rs', 'let dpl = (value_low & DescriptorFlags::DPL_RING_3.bits()) >> 45;', 'let dpl = (value_low >> 45) & 0b11;'),
+    ('b-c15-tss-order', ['C15'], 'src/structures/gdt.rs', '        low.set_bits(16..40, ptr.get_bits(0..24));\n        low.set_bits(56..64, ptr.get_bits(24..32));', '        low.set_bits(56..64, ptr.get_bits(24..32));\n        low.set_bits(16..40, ptr.get_bits(0..24));'),
 ]
